@@ -13,6 +13,11 @@ An edit is a JSON-able tuple; clones are addressed by a *handle* = the smallest 
   ("SubtreeResample", x|None, spec) ParticleGibbsSubtreeSampler.sample_tree/_correct_weights with the SMC result
                                    replaced by a tree built from `spec` over the same data
   ("Relabel",) ("Copy",) ("ToFromDict", mode) ("Update",)
+  ("DetachRegraft", x, inner, par|None)  extract and remove the subtree at x, HOLD it while the host is edited by `inner`
+                                   (NewClone / NewCloneAdd / AddPoint / Relabel), then re-attach it under par: the statement's
+                                   "extracting, removing and re-attaching a subtree" as separate steps with another edit in
+                                   between (node names of the held subtree may clash with names the host has handed out since).
+                                   Not part of the Coq grammar (Model/LTreeConv.v): compared with the rebuild only.
 """
 import gzip
 import math
@@ -25,7 +30,9 @@ import numpy as np
 
 from .trees import AbsError, abs_impl, build_tree, canon, node_points, random_spec, spec_nodes, tree_spec
 
-OPS = ["NewClone", "NewCloneAdd", "AddPoint", "MovePoint", "PruneRegraft", "SubtreeResample", "Relabel", "Copy", "ToFromDict", "Update"]
+OPS = ["NewClone", "NewCloneAdd", "AddPoint", "MovePoint", "PruneRegraft", "SubtreeResample", "Relabel", "Copy", "ToFromDict", "Update", "DetachRegraft"]
+DEFAULT_WEIGHTS = [3, 2, 4, 6, 4, 2, 1, 1, 2, 1, 2]
+COQ_WEIGHTS = [3, 2, 4, 6, 4, 2, 1, 1, 2, 1, 0]
 
 
 # ---------------------------------------------------------------- helpers on the real tree
@@ -119,6 +126,21 @@ def applicable(tree, e, data):
         return sorted(pts) == sorted(spec_points_(spec)) and len(pts) > 0
     if op == "ToFromDict":
         return all(tree.get_data_len(n) > 0 for n in tree.nodes)
+    if op == "DetachRegraft":
+        x, inner, par = e[1], e[2], e[3]
+        if not _clone_handle(tree, x) or inner[0] not in ("NewClone", "NewCloneAdd", "AddPoint", "Relabel"):
+            return False
+        try:
+            host = tree.copy()
+            sub = host.get_subtree(node_of(host, x))
+            held = [d.idx for d in sub.data]
+            host.remove_subtree(sub)
+            if any(p in held for p in delta_points(inner, None)) or not applicable(host, inner, data):
+                return False
+            host = apply_edit_raw(host, inner, data)
+            return par is None or _clone_handle(host, par)
+        except Exception:  # noqa: BLE001 - the replay's oracles report what the real edit does
+            return True
     return op in ("Relabel", "Copy", "Update")
 
 
@@ -194,6 +216,13 @@ def apply_edit_raw(tree, e, data):
             new.add_data_point_to_outliers(dpt)
         new.update()
         return roundtrip(new)  # p.tree = new_tree ; particle.tree
+    if op == "DetachRegraft":
+        x, inner, par = e[1], e[2], e[3]
+        sub = tree.get_subtree(node_of(tree, x))
+        tree.remove_subtree(sub)
+        tree = apply_edit_raw(tree, inner, data)
+        tree.add_subtree(sub, parent=None if par is None else node_of(tree, par))
+        return tree
     if op == "Relabel":
         tree.relabel_nodes()
         return tree
@@ -222,6 +251,8 @@ def delta_points(e, before):
         return [e[2]]
     if e[0] == "AddPoint":
         return [e[1]]
+    if e[0] == "DetachRegraft":
+        return delta_points(e[2], before)
     return []
 
 
@@ -240,7 +271,7 @@ def gen_edit(rng, tree, data, unused, weights=None):
     hm = handle_map(tree)
     inv = {v: k for k, v in hm.items()}
     nodes = list(tree.nodes)
-    op = rng.choices(OPS, weights=weights or [3, 2, 4, 6, 4, 2, 1, 1, 2, 1])[0]
+    op = rng.choices(OPS, weights=weights or DEFAULT_WEIGHTS)[0]
     if op in ("NewClone", "NewCloneAdd"):
         if not unused or not labels_contiguous(tree) or any(n not in inv for n in nodes):
             return None
@@ -302,6 +333,33 @@ def gen_edit(rng, tree, data, unused, weights=None):
         if any(n not in inv for n in nodes):
             return None
         return ("ToFromDict", rng.choice(["direct", "direct", "pickle", "gzip"]))
+    if op == "DetachRegraft":
+        if len(nodes) < 2 or any(n not in inv for n in nodes):
+            return None
+        x = rng.choice(nodes)
+        gone = descendants_handles(tree, x)
+        remaining = [n for n in nodes if n not in gone]
+        if not remaining:
+            return None
+        host = tree.copy()
+        sub = host.get_subtree(x)
+        host.remove_subtree(sub)
+        if rng.random() < 0.3:
+            host.relabel_nodes()
+            inner = ("Relabel",)
+        else:
+            inner = None
+            for _ in range(6):
+                cand = gen_edit(rng, host, data, unused, weights=[4, 2, 3, 0, 0, 0, 0, 0, 0, 0, 0])
+                if cand is not None and applicable(host, cand, data):
+                    inner = cand
+                    break
+            if inner is None:
+                return None
+            host = apply_edit_raw(host, inner, data)
+        hm2 = handle_map(host)
+        par = rng.choice(sorted(hm2) + [None]) if hm2 else None
+        return ("DetachRegraft", inv[x], inner, par)
     return (op,)
 
 
@@ -629,7 +687,7 @@ def make_case(seed, n_points, length, grid=4, want_coq=False, max_samples=2, off
                 v = d.value + offset
             shifted.append(DataPoint(d.idx, v, outlier_prob=d.outlier_prob, outlier_prob_not=d.outlier_prob_not))
         data = shifted
-    spec, hist = gen_history(rng, data, rng.randint(0, max(0, n_points - 3)), length)
+    spec, hist = gen_history(rng, data, rng.randint(0, max(0, n_points - 3)), length, weights=COQ_WEIGHTS if want_coq else None)
     return {"seed": seed, "ns": ns, "grid": grid, "vals": vals, "data": data, "spec": spec, "hist": hist}
 
 
@@ -690,7 +748,7 @@ def history_job(args):
     """args = (seed, n_points, length, want_coq).  Returns a JSON-able summary."""
     seed, n_points, length, want_coq = args[:4]
     offset = args[4] if len(args) > 4 else 0.0
-    case = make_case(seed, n_points, length, offset=offset)
+    case = make_case(seed, n_points, length, offset=offset, want_coq=want_coq)
     hist = case["hist"]
     ops = {}
     for e in hist:
@@ -810,7 +868,7 @@ def roundtrip_job(args):
 
     seed, n_points, length, want_coq = args[:4]
     offset = args[4] if len(args) > 4 else 0.0
-    case = make_case(seed, n_points, length, offset=offset)
+    case = make_case(seed, n_points, length, offset=offset, want_coq=want_coq)
     data, spec, hist = case["data"], case["spec"], case["hist"]
     rng = random.Random(seed + 1)
     out = {"seed": seed, "n_points": n_points, "asked_length": length, "length": len(hist), "roundtrips": 0, "holes": 0, "outlier_only": 0, "suffix_edits": 0, "failure": None, "coq": [], "modes": {}}
